@@ -304,10 +304,47 @@ def main():
             chk.sample(dict(case=c["id"], owners=c["owners"], outs=c["outs"], observers=[(ob["P"], ob["U"], ob["view_bits"], ob["verdict"], ob.get("secs")) for ob in o["observers"]]), cap=8)
         elif o["status"] not in ("sat",):
             chk.inconc("%s: %s %s %s" % (c["id"], o["status"], o["note"], [(ob["P"], ob["verdict"], ob.get("note")) for ob in o["observers"] if ob["verdict"] not in ("unsat", "outside")]))
-    chk.functions = ["mpc::mpc_compiler::compile_context (share_node / recursively_generate_node_shares zero sharings, reveal_output)", "mpc::resharing::reshare", "mpc::mpc_arithmetic::MultiplyMPC (private_product)", "optimizer::optimize::optimize_context"]
+    # ---- fresh-mask simulation tier (wide scalar types, conversion / truncation / mixed-multiply protocols)
+    from . import c03_mask
+    mcases = c03_mask.gen_cases(chk.tier, chk.seed)
+    mresults = drv.run_jobs([check_c01.build_job(c) for c in mcases])
+    mouts = pool_map(c03_mask.analyze, [(c, r, 60 if chk.tier == "quick" else 300) for c, r in zip(mcases, mresults)])
+    for c, o in zip(mcases, mouts):
+        chk.count("mask_programs")
+        chk.count("mask_status_" + str(o["status"]))
+        if o["status"] in ("stage_error", "unsupported", None):
+            chk.inconc("%s: %s %s" % (c["id"], o["status"], o.get("note", "")[:200]))
+        for ob in o["observers"]:
+            chk.count("mask_observer_queries")
+            chk.count("mask_observer_" + str(ob["verdict"]))
+            chk.count("mask_messages", ob["messages"])
+            chk.count("mask_messages_masked", ob["masked"])
+            chk.count("mask_messages_determined_or_harmless", ob["harmless"] + ob.get("determined", 0))
+            chk.count("mask_messages_justified_by_output", ob["justified_by_output"])
+            chk.count("mask_solver_queries", ob["queries"])
+            chk.solver_secs += ob.get("secs", 0.0)
+            if ob["verdict"] == "sat":
+                rep = c03_mask.native_distinguisher(c, ob)
+                d = ob.get("distinguisher") or {}
+                d.pop("runs", None)
+                chk.count("models_replayed")
+                if rep is None or not rep[0]:
+                    chk.inconc("%s observer %d: distinguisher %s not confirmed by the real three-party executor: %s" % (c["id"], ob["P"], d, rep))
+                    continue
+                ob["native"] = rep[1]
+                chk.violation("view-distinguisher|%s|observer%d|recipient=%s" % (c["template"], ob["P"], ob["P"] in c["outs"]),
+                              "%s owners=%s outs=%s: party %d can compute from its view a value (node %s elem %s%s) that does not depend on the unknown randomness but differs for other-party inputs %s vs %s with the same own output; %s" % (
+                                  c["id"], c["owners"], c["outs"], ob["P"], d.get("node1"), d.get("elem1"), "" if d.get("node2") is None else " %s node %s elem %s" % (d.get("kind"), d.get("node2"), d.get("elem2")),
+                                  d.get("xo"), d.get("xo2"), rep[1]),
+                              dict(kind="c03_mask", module="symg.check_c03", case={k: v for k, v in c.items() if not k.startswith("_")}, observer=ob))
+        if o["status"] == "unsat":
+            chk.sample(dict(case=c["id"], tier="mask", observers=[(ob["P"], ob["messages"], ob["masked"], ob["harmless"], ob.get("determined", 0), ob["justified_by_output"], ob["queries"]) for ob in o["observers"]]), cap=16)
+    chk.functions = ["mpc::mpc_compiler::compile_context (share_node / recursively_generate_node_shares zero sharings, reveal_output)", "mpc::resharing::reshare", "mpc::mpc_arithmetic::MultiplyMPC (private_product)", "optimizer::optimize::optimize_context",
+                     "mask tier: mpc::mpc_conversion::{A2BMPC, B2AMPC}", "mask tier: mpc::mpc_arithmetic::MixedMultiplyMPC + mpc::utils::select_node (oblivious transfer)", "mask tier: mpc::mpc_truncate::TruncateMPC2K"]
     chk.bounds = dict(programs="BIT-typed and/xor/and-xor/and-and/majority/vector-and/and-sum over scalar bits and bit[2]; owners with at least two distinct parties; 6 output sets rotated; 3 inline modes",
-                      unknown_tape="<= %d bits per observer (unrolled exhaustively inside the query)" % MAX_U)
-    chk.outside = ["wider scalar types (the sufficient-condition tier of DESIGN §5 C03 was not built)", "observers whose unknown tape exceeds %d bits (counted as 'outside', not as pass)" % MAX_U,
+                      unknown_tape="<= %d bits per observer (unrolled exhaustively inside the query)" % MAX_U,
+                      mask_tier="fresh-mask simulation (sufficient condition, DESIGN 11.6): 14 ring templates (quick; all in thorough) at u8 + i64 (thorough: u8,i32,u64,i128), A2B / B2A / A2B(x+y)->B2A / MixedMultiply / chain / shared-bit AND-XOR / Truncate 2^k / Truncate after product at u8 and one wide type; owner vectors over {0,1,2,public} with >= 1 private input, 7 output sets and 3 inline modes rotated; per observer: every delivered element must have a fresh uniform mask (solver: injectivity, joint injectivity for groups), be determined by the observer's data and justified messages (solver: 2-copy query) or, for a recipient, be determined by its output (solver: injectivity of the locally computed output); observers that are neither proved nor refuted are counted as mask_observer_undecided and are NOT part of the claim")
+    chk.outside = ["wider scalar types beyond the mask tier's families; observers the mask tier leaves 'undecided' (counted)", "observers whose unknown tape exceeds %d bits (counted as 'outside', not as pass)" % MAX_U,
                    "inputs that are already secret-shared", "programs with data-dependent permutations (sort) and joins", "PRF key hand-over messages are dropped from the view (bare random draws, independent of everything else in the idealised-PRF model) - checked not to occur inside any other message"]
     chk.assumptions = ["PRF outputs idealised as independent uniform bits per (key term, counter, element); two parties get the same bit iff they hold the same key term",
                        "solver models are replayed: the unknown tape (<= 10 bits) is enumerated in the real three-party executor for both input vectors and the histograms of the observer's view are compared"]
